@@ -254,16 +254,32 @@ def run(ck):
             ck.fail("raises:symmetry", "symmetry-relation run raised %r" % (e,), inp)
         # --- purity: inputs unchanged, repeated calls, supplied tensor / effective Hamiltonian ---------------------
         if nmol >= 2:
-            for variant in ("plain", "tensor", "tensor+ham", "td-tensor+ham"):
+            for variant in ("plain", "tensor", "tensor+ham", "td-tensor+ham", "combined-tensor+ham", "cutoff-ham"):
                 try:
                     agg = make(nmol, energies, dips, poss, couplings, reorgs, cortimes)
                     kw = {}
                     RT = None
-                    if variant != "plain":
+                    Heff = None
+                    if variant == "combined-tensor+ham":
+                        # effective Hamiltonian that carries the couplings below the cut-off as a remainder
+                        cabs = sorted(abs(float(numpy.array(agg.get_Hamiltonian().data)[i, j])) for i in range(1, nmol + 1) for j in range(i + 1, nmol + 1))
+                        cut = 0.5 * (cabs[0] + cabs[-1]) if cabs[0] != cabs[-1] else (2.0 * cabs[0] if h % 2 == 0 else 0.5 * cabs[0])
+                        RT, ham = agg.get_RelaxationTensor(ta, relaxation_theory="combined_RedfieldFoerster", coupling_cutoff=cut)
+                        kw["relaxation_tensor"] = RT
+                        kw["effective_hamiltonian"] = ham
+                        Heff = ham
+                    elif variant == "cutoff-ham":
+                        cabs = sorted(abs(float(numpy.array(agg.get_Hamiltonian().data)[i, j])) for i in range(1, nmol + 1) for j in range(i + 1, nmol + 1))
+                        cut = 0.5 * (cabs[0] + cabs[-1]) if cabs[0] != cabs[-1] else (2.0 * cabs[0] if h % 2 == 0 else 0.5 * cabs[0])
+                        agg.get_Hamiltonian().remove_cutoff_coupling(cut)
+                        Heff = agg.get_Hamiltonian()
+                    elif variant != "plain":
                         RT, ham = agg.get_RelaxationTensor(ta, relaxation_theory="standard_Redfield", time_dependent=variant.startswith("td"))
                         kw["relaxation_tensor"] = RT
                         if "ham" in variant:
                             kw["effective_hamiltonian"] = ham
+                            Heff = ham
+                    He0 = numpy.array(Heff.data).copy() if Heff is not None else None
                     H0 = numpy.array(agg.get_Hamiltonian().data).copy()
                     D0 = numpy.array(agg.get_TransitionDipoleMoment().data).copy()
                     R0 = numpy.array(RT.data).copy() if RT is not None else None
@@ -276,6 +292,8 @@ def run(ck):
                         bad.append("Hamiltonian")
                     if numpy.abs(numpy.array(agg.get_TransitionDipoleMoment().data) - D0).max() > 1e-9 * numpy.abs(D0).max():
                         bad.append("dipole operator")
+                    if Heff is not None and numpy.abs(numpy.array(Heff.data) - He0).max() > 1e-9 * numpy.abs(He0).max():
+                        bad.append("effective Hamiltonian")
                     if RT is not None and numpy.abs(numpy.array(RT.data) - R0).max() > 1e-9 * numpy.abs(R0).max():
                         bad.append("relaxation tensor")
                     s_b = numpy.array(calc2.calculate(raw=True).data)
